@@ -101,7 +101,8 @@ def build(ctx):
                        "geometry: numInGroup <= %d, data length <= %d, wire blockLength in [compiled, compiled+%d] per level" % (G, D, E),
                        "chain obligation (position after member k == required position before member k+1) is part of the reference model: after/before expressions are generated from the same walker"]
     plan = [("vs_msg_le.xml", "17", "checked"), ("vs_msg_be.xml", "20", "checked"), ("vs_msg_le.xml", "17", "unchecked")] if ctx.quick else \
-        [(x, s, m) for s in ("11", "14", "17", "20") for x in ("vs_msg_le.xml", "vs_msg_be.xml") for m in ("checked", "unchecked")]
+        [("vs_msg_le.xml", "17", "checked"), ("vs_msg_be.xml", "17", "checked"), ("vs_msg_le.xml", "20", "checked"), ("vs_msg_be.xml", "20", "checked"),
+         ("vs_msg_le.xml", "11", "checked"), ("vs_msg_be.xml", "14", "checked"), ("vs_msg_le.xml", "17", "unchecked"), ("vs_msg_be.xml", "20", "unchecked")]
     for (xml, std, mode) in plan:
         sch, inc = hgen.gen_headers(ctx, xml)
         for msg in sch.messages:
